@@ -116,6 +116,17 @@ class OneLeftOperandExpressionToken(RecursiveCompositeBaseToken):
         return self.value[0]
 
 
+class PercentRunToken(RecursiveCompositeBaseToken):
+    """
+    One or more postfix percent signs: 10%% is 10 / 100 / 100
+    """
+    _TOKEN_SETS = [[PercentOperatorToken, CLS], [PercentOperatorToken]]
+
+    @property
+    def length(self) -> int:
+        return 1 + (self.value[1].length if len(self.value) == 2 else 0)
+
+
 class OperatorToken(CompositeBaseToken):
     _TOKEN_SETS = [[ArithmeticOperatorToken], [LogicalOperatorToken], [AmpersandOperatorToken], [PercentOperatorToken]]
 
@@ -125,11 +136,17 @@ class OperatorToken(CompositeBaseToken):
 
 
 class ExpressionToken(RecursiveCompositeBaseToken):
+    # a percent run may follow an operand or a bracket group; the longer alternative goes first, because the first
+    # token set that matches wins
     _TOKEN_SETS = [[OperandToken, OperatorToken, CLS],
                    [OneOperandArithmeticOperatorToken, CLS],
+                   [OperandToken, PercentRunToken, OperatorToken, CLS],
+                   [OperandToken, PercentRunToken],
                    [OneLeftOperandExpressionToken, OperatorToken, CLS],
                    [OneLeftOperandExpressionToken],
                    [BracketStartToken, CLS, BracketFinishToken, OperatorToken, CLS],
+                   [BracketStartToken, CLS, BracketFinishToken, PercentRunToken, OperatorToken, CLS],
+                   [BracketStartToken, CLS, BracketFinishToken, PercentRunToken],
                    [BracketStartToken, CLS, BracketFinishToken], [OperandToken]]
 
     @property
